@@ -4,6 +4,8 @@ import (
 	"encoding/json"
 	"fmt"
 	"os"
+	"sort"
+	"strings"
 	"testing"
 
 	"github.com/zerx-lab/wordZero/pkg/markdown"
@@ -15,6 +17,23 @@ func TestProbe(t *testing.T) {
 	p := os.Getenv("C20_PROBE")
 	if p == "" {
 		t.Skip("C20_PROBE not set")
+	}
+	if p == "lines" { // the open: lines of KNOWN_FINDINGS.txt for this property
+		for _, k := range kfs {
+			seen := map[string]bool{}
+			var cl []string
+			for _, pt := range k.parts {
+				for _, x := range strings.Fields(pt.clauses) {
+					if !seen[x] {
+						seen[x] = true
+						cl = append(cl, x)
+					}
+				}
+			}
+			sort.Strings(cl)
+			fmt.Printf("open:  property=C20 id=%s clause=%s witness=replays/kf/%s.json  %s\n", k.id, strings.Join(cl, ","), k.id, k.desc)
+		}
+		return
 	}
 	js, err := os.ReadFile(p)
 	if err != nil {
@@ -47,7 +66,8 @@ func TestProbe(t *testing.T) {
 			fmt.Printf("md2: %q\n", md2)
 		}
 		res := run(c)
-		fmt.Println("triggers:", triggered(c))
+		cl, ex := triggered(c)
+		fmt.Println("class masks:", cl, "exact masks:", ex)
 		for _, f := range res.Failures {
 			who := "UNATTRIBUTED"
 			for _, k := range findings {
@@ -66,3 +86,182 @@ func TestProbe(t *testing.T) {
 }
 
 func js1(v interface{}) string { b, _ := json.Marshal(v); return string(b) }
+
+// TestEnumDelims (C20_ENUM=1): exhaustive small space of run-format neighbourhoods; compares which of them
+// fail E1-E3 with the class predicates (development aid for keeping the triggers tight).
+func TestEnumDelims(t *testing.T) {
+	if os.Getenv("C20_ENUM") == "" {
+		t.Skip("C20_ENUM not set")
+	}
+	mk := func(m int, s string) Run { return Run{T: s, B: m&mB != 0, I: m&mI != 0, S: m&mS != 0, C: m&mC != 0} }
+	type row struct{ fail, pred int }
+	stat := map[string]*row{}
+	note := func(key string, c Case) {
+		res := run(c)
+		fail := false
+		for _, f := range res.Failures {
+			if f.Clause == "C20.E1" || f.Clause == "C20.E2" || f.Clause == "C20.E3" {
+				fail = true
+			}
+		}
+		cl, _ := triggered(c)
+		pred := len(cl) > 0
+		r := stat[key]
+		if r == nil {
+			r = &row{}
+			stat[key] = r
+		}
+		if fail {
+			r.fail++
+		}
+		if pred {
+			r.pred++
+		}
+		if fail && !pred {
+			fmt.Printf("UNCOVERED %s %s\n", key, js1(c.Blocks))
+		}
+		if pred && !fail {
+			fmt.Printf("BROAD     %s %s %v\n", key, js1(c.Blocks), cl)
+		}
+	}
+	for _, em := range []string{"*", "_"} {
+		o := Opts{GFM: true, Bullet: "-", Emph: em, MaxLen: 80}
+		for m1 := 0; m1 < 16; m1++ {
+			for m2 := 0; m2 < 16; m2++ {
+				if m1 == 0 && m2 == 0 {
+					continue
+				}
+				for _, sep := range []string{"", " "} {
+					c := Case{Blocks: []Block{{K: "p", Runs: []Run{mk(m1, "a"), mk(m2, sep+"b")}}}, O: o}
+					if m2 != 0 && sep == " " {
+						continue // edge blank in a formatted run: other class
+					}
+					note(fmt.Sprintf("pair emph=%s sep=%q", em, sep), c)
+				}
+			}
+		}
+		for m := 1; m < 16; m++ {
+			for _, l := range []string{"x", "x ", "中", "x."} {
+				for _, r := range []string{"y", " y", "文", ".y"} {
+					c := Case{Blocks: []Block{{K: "p", Runs: []Run{mk(0, l), mk(m, "a"), mk(0, r)}}}, O: o}
+					note(fmt.Sprintf("triple emph=%s", em), c)
+				}
+			}
+		}
+	}
+	for k, r := range stat {
+		fmt.Printf("%s: fail=%d pred=%d\n", k, r.fail, r.pred)
+	}
+}
+
+func TestEnumPairs(t *testing.T) {
+	if os.Getenv("C20_ENUM") == "" {
+		t.Skip("C20_ENUM not set")
+	}
+	mk := func(m int, s string) Run { return Run{T: s, B: m&mB != 0, I: m&mI != 0, S: m&mS != 0, C: m&mC != 0} }
+	ms := []int{mB, mI, mB | mI, mS, mB | mS, mI | mS, mB | mI | mS, mC}
+	name := func(m int) string {
+		s := ""
+		for i, ch := range "BISC" {
+			if m&(1<<i) != 0 {
+				s += string(ch)
+			}
+		}
+		return s
+	}
+	for _, em := range []string{"*", "_"} {
+		o := Opts{GFM: true, Bullet: "-", Emph: em, MaxLen: 80}
+		fmt.Printf("emph=%s  rows: first run, cols: second run; X = E1-E3 fail\n      ", em)
+		for _, m2 := range ms {
+			fmt.Printf("%-4s", name(m2))
+		}
+		fmt.Println()
+		for _, m1 := range ms {
+			fmt.Printf("%-6s", name(m1))
+			for _, m2 := range ms {
+				c := Case{Blocks: []Block{{K: "p", Runs: []Run{mk(m1, "a"), mk(m2, "b")}}}, O: o}
+				res := run(c)
+				x := "."
+				for _, f := range res.Failures {
+					if f.Clause == "C20.E1" || f.Clause == "C20.E2" || f.Clause == "C20.E3" {
+						x = "X"
+					}
+				}
+				fmt.Printf("%-4s", x)
+			}
+			fmt.Println()
+		}
+	}
+}
+
+// TestEnumChains (C20_ENUM=1): every chain of 2..4 runs over {plain " x ", plain "x", B, I, BI, S, BS, IS, BIS, C}
+// under both emphasis markers; a chain that fails E1-E3 must be inside a class predicate.
+func TestEnumChains(t *testing.T) {
+	if os.Getenv("C20_ENUM") == "" {
+		t.Skip("C20_ENUM not set")
+	}
+	type rk struct {
+		m int
+		t string
+	}
+	alpha := []rk{{0, " x "}, {0, "x"}, {mB, "a"}, {mI, "a"}, {mB | mI, "a"}, {mS, "a"}, {mB | mS, "a"}, {mI | mS, "a"}, {mB | mI | mS, "a"}, {mC, "a"}}
+	if os.Getenv("C20_ENUM") == "2" { // with code-font combinations (meaningful once the backticks are innermost)
+		alpha = append(alpha, rk{mB | mC, "a"}, rk{mI | mC, "a"}, rk{mS | mC, "a"}, rk{mB | mS | mC, "a"})
+	}
+	ignore := os.Getenv("C20_ENUM_IGNORE") // a class to leave out of the comparison (its finding is repaired in the copy under test)
+	mk := func(k rk) Run { return Run{T: k.t, B: k.m&mB != 0, I: k.m&mI != 0, S: k.m&mS != 0, C: k.m&mC != 0} }
+	unc, broad, n, nf := 0, 0, 0, 0
+	var rec func(rs []Run, depth int, o Opts)
+	rec = func(rs []Run, depth int, o Opts) {
+		if len(rs) >= 2 {
+			ok := true
+			// paragraph edges must not be blank (other class), two plain runs must not touch without meaning
+			if rs[0].T == " x " || rs[len(rs)-1].T == " x " {
+				ok = false
+			}
+			if ok {
+				c := Case{Blocks: []Block{{K: "p", Runs: append([]Run{}, rs...)}}, O: o}
+				res := run(c)
+				fail := false
+				for _, f := range res.Failures {
+					if f.Clause == "C20.E1" || f.Clause == "C20.E2" || f.Clause == "C20.E3" {
+						fail = true
+					}
+				}
+				cl0, _ := triggered(c)
+				var cl []string
+				for _, x := range cl0 {
+					if x != ignore {
+						cl = append(cl, x)
+					}
+				}
+				n++
+				if fail {
+					nf++
+				}
+				if fail && len(cl) == 0 {
+					unc++
+					if unc < 30 {
+						fmt.Printf("UNCOVERED emph=%s %s\n", o.Emph, js1(rs))
+					}
+				}
+				if !fail && len(cl) > 0 {
+					broad++
+					if broad < 15 {
+						fmt.Printf("BROAD emph=%s %s\n", o.Emph, js1(rs))
+					}
+				}
+			}
+		}
+		if depth == 0 {
+			return
+		}
+		for _, k := range alpha {
+			rec(append(rs, mk(k)), depth-1, o)
+		}
+	}
+	for _, em := range []string{"*", "_"} {
+		rec(nil, 4, Opts{GFM: true, Bullet: "-", Emph: em, MaxLen: 80})
+	}
+	fmt.Printf("chains=%d failing=%d uncovered=%d broad=%d\n", n, nf, unc, broad)
+}
